@@ -20,6 +20,8 @@ def r6(ctx):
 
 
 RULES = {
+    "C13.R7b": lambda ctx: __import__("rules.bldrules", fromlist=["x"]).map_new(ctx, "C13.R7b"),
+    "C13.R7": lambda ctx: __import__("rules.bldrules", fromlist=["x"]).builder_new(ctx, "C13.R7"),
     "C13.RL": lambda ctx: __import__("rules.common", fromlist=["x"]).loop_exit_rule(ctx, "C13.RL", {'builder::SourceMapBuilder::into_sourcemap': 0}),
     "C13.R1": lambda ctx: bldrules.interning(ctx, "C13.R1"),
     "C13.R2": lambda ctx: bldrules.cache_coherence(ctx, "C13.R2"),
